@@ -2,10 +2,11 @@
 import json
 import vlib
 from props import subhist_common as S
+from props import sinkbp_common as BP
 
 TRANSLATORS = []
-MODELS = ["subhist"]
-BINS = {"release": ["subhist"]}
+MODELS = ["subhist", "sinkbp"]
+BINS = {"release": ["subhist", "sinkbp"]}
 RULE = ("cases = one script line each (subscribe/accept/reject/clone/drop/send/try_send/is_closed/return/unsubscribe/"
         "connection drop/server stop over 1..2 connections, several concurrent subscriptions), run on a real "
         "jsonrpsee_server::Server over loop-back WebSocket with a remote-controlled handler (harness/src/bin/subhist.rs) "
@@ -13,17 +14,31 @@ RULE = ("cases = one script line each (subscribe/accept/reject/clone/drop/send/t
         "oracle (tools/props/subhist_common.py:oracles) is evaluated on the implementation output alone.  Sources: fixed "
         "corpus, random walks (+ the same walk with a connection drop injected), long multi-subscription walks, and the "
         "exhaustive space of short scripts (sampled in the quick tier).  distinct non-trivial = distinct result lines in "
-        "which at least one notification frame was delivered")
+        "which at least one notification frame was delivered.  Back-pressure (engine sinkbp): cases = one script line each "
+        "(send/try_send/send_timeout of fresh messages, re-send of a handed-back message through each path, recv, close; "
+        "capacities 1..4) run on a real SubscriptionSink over the bounded channel of Methods::raw_json_request / "
+        "Methods::subscribe (harness/src/bin/sinkbp.rs, no server) and on the extracted SinkQueue model "
+        "(modelrun/sinkbp_driver.ml) with the subscription id the implementation reported; diffed token by token; the "
+        "oracle tools/props/sinkbp_common.py:oracle (every received frame is exactly the notification of a produced "
+        "payload with the subscription's own id and method, received sequence = payloads of the accepted sends in order, "
+        "accepted minus received <= capacity, nothing sent after close is delivered) is evaluated on the implementation "
+        "output alone.  Sources: all short scripts, the fill/fail/recv/re-send family, random walks")
 TRUSTED = [
     "modelled, not verified: tokio mpsc/oneshot/semaphore semantics and the WS writer (Model/SubBook.v), tied by the differential run only",
     "harness: handler remote control, quiescence detection (barrier round-trips / idle rounds), counting IdProvider, frame canonicalisation (error.data dropped)",
+    "sinkbp: tokio's bounded mpsc (capacity, FIFO, close) is modelled by Model/SinkQueue.v and tied by the differential run only; the harness reads "
+    "the kind (Complete/NeedsData) and text of a handed-back SubscriptionMessage off its Debug output, reports a `send` that does not finish in 25 ms "
+    "as wouldblock and drops it, uses send_timeout(30 ms), and passes the randomly drawn subscription id from the implementation's output to the model",
 ]
 ASSUMPTIONS = [
     "partial: real interleavings inside tokio are sampled (one harness-sequenced schedule on a current-thread runtime), not enumerated; "
     "the all-traces theorems cover the LTS, whose steps keep the code's seams (accept = enqueue then insert; send = check then enqueue; writer pops one; return then close-notify)",
     "the window between 'response enqueued' and 'table entry inserted' is a model step that the runtime harness does not reproduce",
     "subscribe calls inside batches are out of scope here (C02); payload size limits are C08",
-    "back-pressure is left out of the model (unbounded queue; the harness uses the default 1024-message buffer and never fills it), so try_send is exercised only where it equals send",
+    "engine subhist still has the unbounded queue (its harness uses the default 1024-message buffer and never fills it, so try_send is exercised there only where it equals send); "
+    "back-pressure -- a full queue, the try_send / send_timeout failures, the message they hand back and its re-send through send / try_send / send_timeout, close of the receiving end -- "
+    "is covered by engine sinkbp over Model/SinkQueue.v (theorems C04_bp_*) for ONE subscription with one handler and one receiver acting strictly in turn, on the bounded channel of "
+    "Methods::raw_json_request / Methods::subscribe (capacity = buf_size), not over a socket and not interleaved with other subscriptions, unsubscribe or the closing notification",
     "'own id and method' is about messages the library completes (From<Box<RawValue>>) and the closing notification; SubscriptionMessage::new lets a handler name any id itself and is not used by the harness",
     "after ServerHandle::stop a connection with an unanswered subscribe call stays open until that call is answered (graceful stop, C10); its subscriptions are closed from then on (theorem C04_stop_closes_idle_connections)",
     "a handler that returned but handed a clone of its sink to another task can still send after the closing notification: the property lists unsubscribe / connection end / server stop as closing events, not handler return",
@@ -61,7 +76,11 @@ def run(ctx):
     S.report_oracle_failures(ctx, "C04", found)
     if skipped:
         ctx.note("%d histories show the C06 clone-drop defect (key %s); excluded from C04's model diff, C04 oracle still applied" % (skipped, S.KNOWN_KEY))
+    BP.run(ctx)
 
 
 def replay(payload):
+    case = payload.get("case")
+    if isinstance(case, dict) and "bp" in case:
+        return BP.replay_case(case)
     return S.replay_case(payload, "C04")
